@@ -809,8 +809,11 @@ class FnLower:
         ftype = rd.get('type', {}).get('qualType', '')
         noex = 'noexcept' in ftype.split(')')[-1]
         if rd['kind'] == 'CXXMethodDecl':
-            # static member function of an external class
-            raise Unsupported('static external member ' + name)
+            # static member function of an external class (e.g. allocator_traits<A>::allocate):
+            # named after the member and its parameter types
+            params, _ = fsig_params(ftype) if '(' in ftype else ([], '')
+            nm = 'ext_static_' + name + '__' + sig_tag(params)
+            return dict(kind='ext', name=nm, selfp=None, args=args, noexcept=noex)
         if self.L.by_id.get(rd['id']) is not None and self.L.by_id[rd['id']].get('_in_gmlc'):
             raise Unsupported('gmlc function %s has no body in the AST' % name)
         if name in OPNAMES:
